@@ -326,6 +326,40 @@ func c19Random(w *core.W, j int) {
 			}
 		})
 	}
+	// the same names with some letters written escaped (\A is the letter A): still the same wire
+	// name, so the helpers count the same labels and canonical form lower-cases those letters too
+	for k, n := range names {
+		esc := escapeLetters(n.Pres(), uint64(j)*977+uint64(k))
+		if esc == n.Pres() {
+			continue
+		}
+		w.Eval(1)
+		w.Count("escaped_letter_names", 1)
+		wit := map[string]any{"name": n.Pres(), "escaped": esc}
+		w.Guard("escaped-letter helpers", wit, func() {
+			want := []byte(esc)
+			for i, c := range want {
+				if c >= 'A' && c <= 'Z' {
+					want[i] = c + 32
+				}
+			}
+			if got := dns.CanonicalName(esc); got != string(want) {
+				w.Violation("C19/CanonicalName/escaped-letter", fmt.Sprintf("CanonicalName(%q)=%q, want %q", esc, got, want), wit)
+			}
+			if got := dns.CountLabel(esc); got != len(n) {
+				w.Violation("C19/CountLabel/escaped-letter", fmt.Sprintf("CountLabel(%q)=%d, the name has %d labels", esc, got, len(n)), wit)
+			}
+			if got := dns.Fqdn(strings.TrimSuffix(esc, ".")); len(n) > 0 && !strings.HasSuffix(esc, "\\.") && got != esc {
+				w.Violation("C19/Fqdn/escaped-letter", fmt.Sprintf("Fqdn of %q without its root dot = %q", esc, got), wit)
+			}
+			if got := dns.CompareDomainName(esc, string(want)); got != len(n) {
+				w.Violation("C19/CompareDomainName/escaped-letter", fmt.Sprintf("CompareDomainName(%q, %q)=%d, want %d", esc, want, got, len(n)), wit)
+			}
+			if !dns.IsSubDomain(string(want), esc) {
+				w.Violation("C19/IsSubDomain/escaped-letter", fmt.Sprintf("IsSubDomain(%q, %q)=false", want, esc), wit)
+			}
+		})
+	}
 	r := g.R
 	// names over octets whose 0x20-partner is not a letter either ( @` [{ \| ]} ^~ _DEL and control
 	// octets against 0x20..0x3F): a name and its partner-wise image share only the labels that are
